@@ -378,6 +378,17 @@ class Interp:
             if h is not None:
                 return h
             raise Unsupported("field %s of %r" % (step, v))
+        if isinstance(step, tuple) and step[0] == "sub":
+            a, b = step[1], step[2]
+            if isinstance(v, Agg):
+                return Agg(None, v.f[a:b])
+            if isinstance(v, VecVal):
+                return Agg(None, v.elems[a:b])
+            if isinstance(v, ByteSeq):
+                return ByteSeq(v.b[a:b])
+            if isinstance(v, str):
+                return v.encode("utf-8", "surrogateescape")[a:b].decode("utf-8", "surrogateescape")
+            raise Unsupported("subslice of %r" % (v,))
         if isinstance(step, tuple):  # ('V', k) downcast
             if isinstance(v, Agg):
                 return v
@@ -494,19 +505,31 @@ class Interp:
             elif "Index" in e:
                 iv = self.read(st, Ptr(fr.base + e["Index"]))
                 iv = self.concrete_int(st, iv)
-                ptr = Ptr(ptr.cell, ptr.path + (iv,), None)
+                ptr = self.index_ptr(ptr, iv)
             elif "ConstantIndex" in e:
                 ci = e["ConstantIndex"]
                 if ci["from_end"]:
                     n = self.seq_len(st, ptr)
-                    ptr = Ptr(ptr.cell, ptr.path + (n - ci["offset"],), None)
+                    ptr = self.index_ptr(ptr, n - ci["offset"])
                 else:
-                    ptr = Ptr(ptr.cell, ptr.path + (ci["offset"],), None)
+                    ptr = self.index_ptr(ptr, ci["offset"])
             elif "OpaqueCast" in e:
                 pass
+            elif "Subslice" in e:
+                ss = e["Subslice"]
+                n = self.seq_len(st, ptr)
+                a = ss["from"]
+                b = (n - ss["to"]) if ss["from_end"] else ss["to"]
+                ptr = Ptr(ptr.cell, ptr.path + (("sub", a, b),), b - a)
             else:
                 raise Unsupported("projection %s" % (e,))
         return ptr
+
+    def index_ptr(self, ptr, i):
+        """pointer to element i of the sequence ptr points to (offsets of sub-slices are folded)"""
+        if ptr.path and isinstance(ptr.path[-1], tuple) and ptr.path[-1][0] == "sub":
+            return Ptr(ptr.cell, ptr.path[:-1] + (ptr.path[-1][1] + i,), None)
+        return Ptr(ptr.cell, ptr.path + (i,), None)
 
     def seq_len(self, st, ptr):
         if ptr.meta is not None and isinstance(ptr.meta, int):
@@ -514,6 +537,12 @@ class Interp:
         v = self.read(st, ptr)
         if isinstance(v, Agg):
             return len(v.f)
+        if isinstance(v, ByteSeq):
+            return len(v.b)
+        if isinstance(v, str):
+            return len(v.encode("utf-8", "surrogateescape"))
+        if isinstance(v, VecVal):
+            return len(v.elems)
         raise Unsupported("len of %r" % (v,))
 
     def str_len(self, s):
@@ -1038,6 +1067,10 @@ class Interp:
             if "RawPtr" in kind:
                 p, meta = vals
                 if isinstance(p, Ptr):
+                    if isinstance(meta, int) and not isinstance(meta, bool) and p.path and isinstance(p.path[-1], int):
+                        # (element pointer, length) = a sub-slice of the sequence the element lives in
+                        i = p.path[-1]
+                        return Ptr(p.cell, p.path[:-1] + (("sub", i, i + meta),), meta)
                     return Ptr(p.cell, p.path, None if (isinstance(meta, Agg) and not meta.f) else meta)
                 if isinstance(p, IntPtr):
                     return p
@@ -1138,9 +1171,15 @@ class Interp:
             if isinstance(v, Ptr):
                 dp = self.types[dty.elem] if dty.kind in ("rawptr", "ref") else None
                 sp = self.types[sty.elem] if sty.kind in ("rawptr", "ref") else None
-                if dp is not None and sp is not None and sp.kind in ("slice", "array") and dp.kind not in ("slice", "str", "dyn", "array"):
-                    # thin pointer to the first element of a sequence
-                    return Ptr(v.cell, v.path + (0,), None)
+                if dp is not None and sp is not None and sp.kind in ("slice", "array", "str") and dp.kind not in ("slice", "str", "dyn", "array"):
+                    # thin pointer to the first element of a sequence (only if v really addresses a whole sequence)
+                    try:
+                        tgt = self.read(st, Ptr(v.cell, v.path), expand_scalar=False)
+                    except Unsupported:
+                        tgt = None
+                    if v.meta is not None or isinstance(tgt, (Agg, VecVal, ByteSeq, str)) and not (v.path and isinstance(v.path[-1], int)):
+                        return self.index_ptr(v, 0)
+                    return Ptr(v.cell, v.path, None)
                 if dp is not None and dp.kind not in ("slice", "str", "dyn") and v.meta is not None:
                     return Ptr(v.cell, v.path, None)
             return v
